@@ -34,7 +34,7 @@ _add(
 _add(
     "C02",
     rule="records N in {1,2,3,4,5,8} x dt in {1,0.5,0.1,1.3} x every pointer; select/insert calls with times constructed as k*dt+delta (delta in {0, +-tol/2, +-2tol (1e-9 when tol=0), dt/4, dt/2, 3dt/4, dt-2tol}), scalar / tensor / tensor-with-extra-dim times, per-element mixed on/off-grid, offsets 0..N, tol in {0,1e-6,1e-3}, spy and every shipped interpolation/extrapolation, in-place or not, plus out-of-range calls; one evaluation = one select/insert call judged (spy arguments, value, all slots). distinct = (op, mode, N, dt, tol, grid class, range edge, offset class, function, dtype, inplace) abstractions.",
-    required=["select_calls", "insert_calls", "oor_calls", "spy_interp_args_checked", "spy_extrap_args_checked", "roundtrips", "adjusted_extrapolations", "scalar_tensor_agreements", "expected_errors_seen", "nonfloat_storage_selects", "nonfloat_elapsed_checked", "inserts_of_observations_in_another_dtype", "ongrid_inserts_over_nonfinite_slots"],
+    required=["real_valued_reads_of_nonfloat_records", "select_calls", "insert_calls", "oor_calls", "spy_interp_args_checked", "spy_extrap_args_checked", "roundtrips", "adjusted_extrapolations", "scalar_tensor_agreements", "expected_errors_seen", "nonfloat_storage_selects", "nonfloat_elapsed_checked", "inserts_of_observations_in_another_dtype", "ongrid_inserts_over_nonfinite_slots"],
     floor={"quick": 300, "thorough": 1500},
     text="Held on every select/insert call explored: times are constructed from an integer step and a symbolic offset so the oracle knows the slot, grid membership, bracketing samples and elapsed time; a spy interpolation/extrapolation records the arguments the real code passes, every slot of storage is compared after each insert, scalar and tensor forms are cross-checked and range errors are demanded.",
     technique="runtime monitoring: argument-spy oracle + list-model comparison on the real RecordTensor.select/insert over generated on/off-grid times",
@@ -117,7 +117,7 @@ _add(
          "consecutive updates per run under multiplicative / scaled multiplicative / scaled power / sharp bounding "
          "with reduced magnitudes at the stated limit, range invariant checked after every application. distinct = "
          "(operation, bound, half, reduction and route, dtype, inside/outside, contribution form) abstractions.",
-    required=["contributions", "applications", "second_applications", "permutation_checks",
+    required=["longruns_with_single_precision_parts_on_a_double_precision_parameter", "contributions", "applications", "second_applications", "permutation_checks",
               "custom_reduction_applications", "longrun_applications", "bound_removals", "discarded_pending_updates", "one_sided_full_bound_cases", "all_zero_parts_contributed"],
     floor={"quick": 150, "thorough": 300},
     text="Held on every interleaving explored: parameter values after each update / updatesome / clear on the real "
@@ -233,7 +233,7 @@ _add(
          "new layer is run k steps, cleared, compared state-by-state with a freshly built copy carrying its parameters and "
          "adaptations, and both replay 5 steps. One evaluation = one compared step or one clear position; distinct = "
          "(layer kind / combine, neuron, synapse, delay, capture, batch, clear position class) abstractions.",
-    required=["clears_dropping_learned_adaptations", "wiring_steps_checked", "component_states_compared", "clear_positions_checked", "replays_checked", "recurrent_layers_with_one_sided_output_transforms", "connection_kwargs_routing_checks", "clears_with_pending_updates_checked", "bicliques_with_inplace_transform_before_another_group", "recurrent_steps_with_additional_connection_inputs", "steps_at_a_new_batch_size_after_clear"],
+    required=["layer_updates_between_steps", "clears_dropping_learned_adaptations", "wiring_steps_checked", "component_states_compared", "clear_positions_checked", "replays_checked", "recurrent_layers_with_one_sided_output_transforms", "connection_kwargs_routing_checks", "clears_with_pending_updates_checked", "bicliques_with_inplace_transform_before_another_group", "recurrent_steps_with_additional_connection_inputs", "steps_at_a_new_batch_size_after_clear"],
     floor={"quick": 150, "thorough": 500},
     exhaustive={"quick": ["clear() at every position 0..T of each generated run"], "thorough": ["clear() at every position 0..T of each generated run"]},
     text="Held on every topology and run explored: layer outputs (and captured intermediates) equal the documented "
@@ -277,7 +277,7 @@ _add(
          "kernels vs the dedicated delay-adjusted rule on identical inputs; (c) all-zero delays vs the undelayed kernel "
          "rule; (d) exactly constructed t_delta == 0 ties. One evaluation = one step judged; distinct = (part, trainer, "
          "cell type, delay values, sign mode, reduction, batch, reward kind, active/silent).",
-    required=["cells_registered_with_batch_reduction_none", "cases_with_the_trainer_stepped_from_a_layer_forward_hook", "formula_steps_checked", "steps_with_change", "steps_before_both_sides_spiked", "trainer_clears", "cross_steps_checked",
+    required=["cases_with_a_positive_interpolation_tolerance", "cells_registered_with_batch_reduction_none", "cases_with_the_trainer_stepped_from_a_layer_forward_hook", "formula_steps_checked", "steps_with_change", "steps_before_both_sides_spiked", "trainer_clears", "cross_steps_checked",
               "zero_delay_steps_checked", "ties_checked", "tensor_valued_kernel_kwargs_cases", "multicell_steps_checked", "kernel_delayed_substep_delay_steps", "multicell_calls_limited_to_named_cells", "user_kernel_cases", "steps_with_accumulated_pending_updates"],
     floor={"quick": 60, "thorough": 150},
     text="Held on every history explored: the change applied by each real delay-adjusted / kernel trainer after every "
